@@ -22,7 +22,7 @@ import random
 from lib.monitors.taint_shim import Rule, RuleSet, ARG_TARGETS
 
 CARRIERS = ("assign", "op", "param", "ret", "field", "list", "dict", "closure", "global", "tuple", "cond")
-VARIANTS = {"assign": 2, "op": 6, "param": 8, "ret": 3, "field": 4, "list": 4, "dict": 3, "closure": 2, "global": 3,
+VARIANTS = {"assign": 2, "op": 7, "param": 8, "ret": 3, "field": 4, "list": 4, "dict": 3, "closure": 2, "global": 3,
             "tuple": 2, "cond": 3}
 SOURCE_KINDS = ("call", "mcall", "param", "fread", "fread_this")
 SINK_KINDS = ("call", "mcall", "fwrite", "rwrite")
@@ -534,9 +534,16 @@ def emit_chain(ctx, body, chain, x):
             body.add(f"{z} = {x}")
             body.add(f"{y} = {z}")
     elif c == "op":
-        if ctx.maybe_str:
+        if ctx.maybe_str and var in (3, 4, 5):
             var = var % 3
-        if var == 0:
+        if var == 6:
+            # a variable re-defined from itself, then copied, then derived through the copy
+            w, w2 = prog.fresh("v"), prog.fresh("v")
+            body.add(f"{w} = {x}")
+            body.add(f"{w} = {w} + {_const(prog)}")
+            body.add(f"{w2} = {w}")
+            body.add(f"{y} = {w2} + {_const(prog)}")
+        elif var == 0:
             body.add(f"{y} = {x} + {_const(prog)}")
         elif var == 1:
             body.add(f"{y} = {_const(prog)} + {x}")
@@ -828,6 +835,10 @@ def make_gadget(rng, gid, k, profile, force=None):
     # layout: helper level -> file index, non-decreasing (cycled as well)
     g["layout"] = list(LAYOUTS[(k // 2) % len(LAYOUTS)])
     g["imp"] = ("from", "mod", "from")[(k // 4) % 3]
+    # scheduled, not drawn: every sixth gadget carries the "self-redefinition, copy, operator" carrier (op.6), its place in the chain
+    # cycles (before / after the other carriers, hence in entry functions, at module level and inside helpers)
+    if k % 6 == 2:
+        chain.insert((k // 6) % (len(chain) + 1), ["op", 6])
     if g["tk"] == "call" and k % 3 != 0:
         g["pre_call"] = True
     # systematically: every `every`-th gadget carries a restricted rule, cycling through all (side, kind, mode) combinations
